@@ -44,6 +44,9 @@ Round 3:
   Controller objects): interleaved selections (the same configuration asked again), select_expression, operators, direct
   set_index / set_name / modify_controller / reset_selection, reads; observed without touching any CentralController
   (model `Cat.runM`, theorem select_after_any_history);
+* construction interleaved with selection: catalogs and formulas created at any point of a history of selections /
+  operators / direct controller moves; after every selection and every move all catalogs made so far follow their
+  controller (model `Cat.runW`, theorem late_catalog_follows);
 * the signature text the calculator hands to the engine for a configured formula is run by the PROVED engine
   model (lib/leanrun.py, theorems C01.engine_reads_text / engine_correct) and must give the integer value of the
   hand-written formula: the C++ engine is no longer trusted for these.
@@ -84,14 +87,18 @@ MANIFEST = dict(
     'a valid configuration of the part, with the same hand-written form (embedded_formula / embedded_operands); with several formulas (several central '
     'controllers) on shared controller objects, after any history of selections on any of them, select_expression, operator calls and direct set_index / '
     'set_name / modify_controller on the controllers, configure_catalogs(A) makes the formula show A (current configuration, every catalog, hand-written '
-    'form) and leaves the controllers of other formulas only untouched (select_after_any_history / select_touches_own_controllers_only). '
+    'form) and leaves the controllers of other formulas only untouched (select_after_any_history / select_touches_own_controllers_only); when catalogs '
+    'and formulas are created at any point of such a history (a catalog handed a controller that has already been moved), after configure_catalogs(A) every '
+    'catalog made so far, whenever it was made, shows the member A names for its controller (late_catalog_follows). '
     'Tie: correspondence on real Catalog/Controller/Configuration objects, '
     'engine evaluation of configured vs hand-written formulas, decoded signatures, operator histories with recorded random choices, population '
     'histories (operator applied to a configuration that is not the one the expression shows); spaces up to the cap enumerated completely; '
     'construction stream with declared controllers and both constructors; iteration over chosen sets; real estimate_catalog runs against hand-written '
     'estimations; rewriting through catalogs; signature texts of configured formulas run by the proved engine model (leanrun); scripts using a formula '
     'alone and as a part of one or two bigger formulas in any order; scripts over 2-3 formulas built on the same catalog objects (repeated selections, '
-    'direct mutations of the Controller objects, reads), the state observed through the Controller / Catalog objects only.',
+    'direct mutations of the Controller objects, reads), the state observed through the Controller / Catalog objects only; scripts creating catalogs '
+    '(list / from_dict, declared or own controller) and formulas BETWEEN selections, operator calls and direct moves, selections often asking for the '
+    'alternatives the controllers already show.',
     design='DESIGN.md §5 C16',
     technique='Lean 4 theorems over an executable state-machine model + differential correspondence with the real catalog machinery and the real engine',
     note='Known finding FC16f (open): Expression.set_central_controller hands the central controller of an enclosing formula to the formulas it contains, '
@@ -2391,6 +2398,277 @@ def check_shared(ctx, res, n):
 
         ctx.batch.add({'op': 'multi', 'formulas': [lean_expr(a) for a in abstract], 'ops': lean_ops}, cb)
 
+
+# --------------------------------------------------------------------------- construction interleaved with selection
+#
+# A script creates catalogs and formulas at ANY point of a history of selections, operator calls and direct moves of
+# the Controller objects: a catalog may be handed a controller that has already left its first alternative, a formula
+# (and its central controller) may be made while the controllers are in any state.  Oracle (expected indices tracked by
+# the harness): after every selection on a formula and after every direct move, EVERY catalog made so far - whenever it
+# was made, in whatever formula - shows the member its controller names, and the formula selected evaluates like its
+# hand-written form.  Observed through Catalog / Controller objects only.  Model: Cat.runW, theorem late_catalog_follows.
+
+W_LATE = 'Catalog.__init__ / Controller.set_index: catalogs created after their controller was moved'
+
+
+def gen_late_case(rng):
+    decl = {}
+    for cn in rng.sample(CTRL_NAMES, rng.choice([1, 1, 2])):
+        decl[cn] = rng.sample([n for n in SPEC_NAMES if n], rng.choice([2, 2, 3, 4]))
+    free_names = list(CAT_NAMES)
+    rng.shuffle(free_names)
+    leaf = lambda: rng.choice([{'k': 'num', 'v': rng.randint(-4, 6)}, {'k': 'beta', 'n': rng.choice(BETAS)}, {'k': 'var', 'n': rng.choice(VARS)},  # noqa: E731
+                               {'k': 'bin', 'op': 'times', 'a': {'k': 'beta', 'n': rng.choice(BETAS)}, 'b': {'k': 'var', 'n': rng.choice(VARS)}}])
+    specs = {k: list(v) for k, v in decl.items()}  # all controllers known so far
+    idx = {k: 0 for k in decl}
+    cats, formulas, script = [], [], []
+
+    def newcat():
+        if not free_names:
+            return False
+        name = free_names.pop()
+        if rng.random() < 0.8:
+            # preferably a controller that is not on its first alternative at this moment
+            moved_ = [c for c in sorted(decl) if idx[c] != 0]
+            cn = rng.choice(moved_) if moved_ and rng.random() < 0.7 else rng.choice(sorted(decl))
+            node = {'k': 'cat', 'name': name, 'ctrl': cn, 'own': False, 'ms': [[s_, leaf()] for s_ in decl[cn]]}
+        else:
+            names = rng.sample(SPEC_NAMES, rng.choice([1, 2, 3]))
+            node = {'k': 'cat', 'name': name, 'ctrl': name, 'own': True, 'ms': [[s_, leaf()] for s_ in names]}
+            specs[name] = names
+            idx[name] = 0
+        if rng.random() < 0.3:
+            node['via'] = 'from_dict'
+        cats.append(node)
+        script.append({'e': 'newcat', 'node': node})
+        return True
+
+    def newformula():
+        recent = [len(cats) - 1] if rng.random() < 0.7 else []
+        pick = sorted(set(recent + rng.sample(range(len(cats)), rng.randint(1, min(3, len(cats))))))
+        formulas.append(pick)
+        script.append({'e': 'newformula', 'cats': pick})
+
+    def space(f):
+        return {cats[i]['ctrl']: specs[cats[i]['ctrl']] for i in formulas[f]}
+
+    newcat()
+    newformula()
+    for _ in range(rng.randint(8, 18)):
+        r = rng.random()
+        f = rng.randrange(len(formulas))
+        sp = space(f)
+        names = sorted(sp)
+        if r < 0.17:
+            if newcat() and rng.random() < 0.75:
+                newformula()
+        elif r < 0.25:
+            newformula()
+        elif r < 0.55:
+            # often: the alternatives the controllers already show (nothing has to move)
+            cfg = {n: (sp[n][idx[n]] if rng.random() < 0.6 else rng.choice(sp[n])) for n in names}
+            for n in names:
+                idx[n] = sp[n].index(cfg[n])
+            script.append({'e': 'select', 'f': f, 'id': cfg_id(cfg), 'via': rng.choice(['expression', 'central', 'central_id'])})
+        elif r < 0.75:
+            n = rng.choice(sorted(specs))
+            how = rng.choice(['index', 'name', 'modify', 'reset'])
+            ev = {'e': how, 'name': n}
+            size = len(specs[n])
+            if how == 'index':
+                ev['index'] = rng.randrange(size)
+                idx[n] = ev['index']
+            elif how == 'name':
+                ev['v'] = rng.choice(specs[n])
+                idx[n] = specs[n].index(ev['v'])
+            elif how == 'modify':
+                ev.update(step=rng.choice([1, -1, 2, -3, 0, rng.randint(-9, 9)]), circular=rng.random() < 0.5)
+                new_i = idx[n] + ev['step']
+                idx[n] = new_i % size if ev['circular'] else min(max(new_i, 0), size - 1)
+            else:
+                idx[n] = 0
+            script.append(ev)
+        elif r < 0.85:
+            n = rng.choice(names)
+            i = idx[n] if rng.random() < 0.5 else rng.randrange(len(sp[n]))
+            idx[n] = i
+            script.append({'e': 'setctrl', 'f': f, 'name': n, 'index': i, 'via': rng.choice(['expression', 'central'])})
+        else:
+            table = op_table(names)
+            det = [k for k in table if table[k][0] != 'several']
+            cfg = {n: (sp[n][idx[n]] if rng.random() < 0.5 else rng.choice(sp[n])) for n in names}
+            key, step = rng.choice(det), rng.choice([1, 1, 2, -1, 0, 0, 3, -7])
+            d = table[key]
+            mv = [(d[1], step)] if d[0] == 'inc' else [(d[1], -step)] if d[0] == 'dec' else \
+                [(d[1], step if d[3][1] == 'E' else -step), (d[2], step if d[3][0] == 'N' else -step)]
+            want = moved(sp, cfg, mv)
+            for n in names:
+                idx[n] = sp[n].index(want[n])
+            script.append({'e': 'apply', 'f': f, 'key': key, 'id': cfg_id(cfg), 'step': step})
+    return {'shape': 'late', 'decl': decl, 'betas': {b: rng.randint(-3, 4) for b in BETAS},
+            'rows': [{v: rng.randint(-3, 5) for v in VARS} for _ in range(2)], 'script': script}
+
+
+def run_late(res, case, report=True):
+    L = lib()
+    B = builders(case)
+    decl = case['decl']
+    ctrl_obj = {cn: L.Controller(cn, list(sp)) for cn, sp in decl.items()}
+    specs = {k: list(v) for k, v in decl.items()}
+    idx = {k: 0 for k in decl}
+    nodes, cat_objs, formulas, reals, abstract = [], [], [], [], []
+    db_ = database(case)
+    mk = lambda sid: L.Configuration([L.SelectionTuple(n, s_) for n, s_ in id_cfg(sid).items()])  # noqa: E731
+    lean_ops, obs, done = [], [], []
+
+    def bad(what, observed, expected):
+        if report:
+            res.violate(what, {**case, 'script': done + [ev]}, observed, expected, where=W_LATE)
+
+    def space(f):
+        return {nodes[i]['ctrl']: specs[nodes[i]['ctrl']] for i in formulas[f]}
+
+    def central(f):
+        if reals[f].central_controller is None:
+            reals[f].set_central_controller()
+        return reals[f].central_controller
+
+    def catalogs_follow(after):
+        shown = {nd['name']: c.selected_name() for nd, c in zip(nodes, cat_objs)}
+        want = {nd['name']: specs[nd['ctrl']][idx[nd['ctrl']]] for nd in nodes}
+        if shown != want:
+            wrong = sorted(k for k in shown if shown[k] != want[k])
+            bad(f'after {after} (operations before: {[d["e"] for d in done]}) catalogs {wrong} do not show the alternative of their controller', shown, want)
+            return False
+        return True
+
+    for ev in case['script']:
+        kind = ev['e']
+        f = ev.get('f')
+        ok = True
+        if kind == 'newcat':
+            nd = ev['node']
+            members = [L.ex.NamedExpression(name=n, expression=hand_written(m, {}, B)) for n, m in nd['ms']]
+            kw = {} if nd['own'] else {'controlled_by': ctrl_obj[nd['ctrl']]}
+            if nd.get('via') == 'from_dict':
+                c = L.Catalog.from_dict(nd['name'], {m.name: m.expression for m in members}, **kw)
+            else:
+                c = L.Catalog(nd['name'], members, **kw)
+            if nd['own']:
+                ctrl_obj[nd['ctrl']] = c.controlled_by
+                specs[nd['ctrl']] = [m[0] for m in nd['ms']]
+                idx[nd['ctrl']] = 0
+            nodes.append(nd)
+            cat_objs.append(c)
+            lean_ops.append({'e': 'newcat', 'name': nd['name'], 'ctrl': nd['ctrl'], 'names': [m[0] for m in nd['ms']]})
+        elif kind == 'newformula':
+            g, ga = L.ex.Numeric(0), {'k': 'num', 'v': 0}
+            for k, i in enumerate(ev['cats']):
+                g = g + cat_objs[i] * (k + 1)
+                ga = {'k': 'bin', 'op': 'plus', 'a': ga, 'b': {'k': 'bin', 'op': 'times', 'a': nodes[i], 'b': {'k': 'num', 'v': k + 1}}}
+            formulas.append(ev['cats'])
+            reals.append(g)
+            abstract.append(ga)
+            lean_ops.append({'e': 'newformula', 'expr': lean_expr(ga)})
+        elif kind == 'select':
+            c = mk(ev['id'])
+            if ev['via'] == 'expression':
+                reals[f].configure_catalogs(c)
+            elif ev['via'] == 'central':
+                central(f).set_configuration(c)
+            else:
+                central(f).set_configuration_from_id(ev['id'])
+            cfg = id_cfg(ev['id'])
+            for n, v in cfg.items():
+                idx[n] = specs[n].index(v)
+            ok = catalogs_follow(f'formula {f} is configured as {ev["id"]!r}')
+            if ok:
+                reals[f].set_id_manager(None)
+                got = [float(v) for v in reals[f].get_value_c(database=db_, prepare_ids=True)]
+                reals[f].set_id_manager(None)
+                val = [float(hand_int(abstract[f], cfg, case['betas'], r)) for r in case['rows']]
+                if got != val:
+                    bad(f'after formula {f} is configured as {ev["id"]!r} it does not evaluate like the formula written out by hand', got, val)
+                    ok = False
+            lean_ops.append({'e': 'select', 'f': f, 'id': ev['id']})
+        elif kind == 'setctrl':
+            if ev['via'] == 'expression':
+                reals[f].select_expression(ev['name'], ev['index'])
+            else:
+                central(f).set_controller(ev['name'], ev['index'])
+            idx[ev['name']] = ev['index']
+            ok = catalogs_follow(f'select_expression({ev["name"]!r}, {ev["index"]}) on formula {f}')
+            lean_ops.append({'e': 'setctrl', 'f': f, 'name': ev['name'], 'index': ev['index']})
+        elif kind == 'apply':
+            sp = space(f)
+            new, _ret = central(f).prepare_operators()[ev['key']](mk(ev['id']), ev['step'])
+            d = op_table(sorted(sp))[ev['key']]
+            step = ev['step']
+            mv = [(d[1], step)] if d[0] == 'inc' else [(d[1], -step)] if d[0] == 'dec' else \
+                [(d[1], step if d[3][1] == 'E' else -step), (d[2], step if d[3][0] == 'N' else -step)]
+            want = moved(sp, id_cfg(ev['id']), mv)
+            if new.get_string_id() != cfg_id(want):
+                bad(f'operator {ev["key"]!r} of formula {f} with step {step} given {ev["id"]!r} does not return the neighbour of the configuration it is given',
+                    new.get_string_id(), cfg_id(want))
+                ok = False
+            for n, v in want.items():
+                idx[n] = specs[n].index(v)
+            ok = ok and catalogs_follow(f'operator {ev["key"]!r} (step {step}) of formula {f} given {ev["id"]!r}')
+            lean_ops.append({'e': 'apply', 'f': f, 'key': ev['key'], 'id': ev['id'], 'step': step, 'choices': []})
+        else:
+            c_ = ctrl_obj[ev['name']]
+            size = len(specs[ev['name']])
+            if kind == 'index':
+                c_.set_index(ev['index'])
+                idx[ev['name']] = ev['index']
+                lean_ops.append({'e': 'index', 'name': ev['name'], 'specs': specs[ev['name']], 'index': ev['index']})
+            elif kind == 'reset':
+                c_.reset_selection()
+                idx[ev['name']] = 0
+                lean_ops.append({'e': 'index', 'name': ev['name'], 'specs': specs[ev['name']], 'index': 0})
+            elif kind == 'name':
+                c_.set_name(ev['v'])
+                idx[ev['name']] = specs[ev['name']].index(ev['v'])
+                lean_ops.append({'e': 'name', 'name': ev['name'], 'specs': specs[ev['name']], 'v': ev['v']})
+            else:
+                c_.modify_controller(step=ev['step'], circular=ev['circular'])
+                new_i = idx[ev['name']] + ev['step']
+                idx[ev['name']] = new_i % size if ev['circular'] else min(max(new_i, 0), size - 1)
+                lean_ops.append({'e': 'modify', 'name': ev['name'], 'specs': specs[ev['name']], 'step': ev['step'], 'circular': ev['circular']})
+            ok = catalogs_follow(f'{kind} on the controller {ev["name"]!r}')
+        res.tally('late:' + kind)
+        obs.append({'views': [cfg_id({n: ctrl_obj[n].current_name() for n in space(k)}) for k in range(len(reals))],
+                    'shown': [c.selected_name() for c in cat_objs]})
+        if not ok:
+            break
+        done.append(ev)
+    return obs, lean_ops
+
+
+def check_late(ctx, res, n):
+    for _ in range(n):
+        case = gen_late_case(ctx.rng)
+        res.count(case, nontrivial=True)
+        try:
+            obs, lean_ops = run_late(res, case)
+        except Exception as e:  # noqa: BLE001
+            import traceback
+
+            tb = traceback.extract_tb(e.__traceback__)
+            site = next((f'{f.filename.split("/")[-1]}:{f.lineno} {f.name}' for f in reversed(tb) if '/biogeme/' in f.filename), '')
+            res.violate(f'the real code raises {type(e).__name__}: {str(e)[:200]} while catalogs and formulas are created between selections', case,
+                        f'{core.exc_kind(e)} at {site}', 'no error', where=W_LATE)
+            continue
+
+        def cb(a, case=case, obs=obs):
+            tr = a.get('trace')
+            if tr is None or tr[:len(obs)] != obs:
+                res.diverge('configurations of the formulas and members shown by the catalogs made so far, after each step of a script creating catalogs '
+                            'between selections', case, tr, obs, where=W_LATE)
+            res.traces_validated += 1
+
+        ctx.batch.add({'op': 'world', 'decl': [[k, v] for k, v in case['decl'].items()], 'ops': lean_ops}, cb)
+
 # --------------------------------------------------------------------------- known-finding shapes (oracle only)
 
 FINDING_CASES = [
@@ -2616,6 +2894,7 @@ def check(ctx) -> Result:
     check_estimate(ctx, res, ctx.n(3, 30))
     check_embedding(ctx, res, ctx.n(40, 400))
     check_shared(ctx, res, ctx.n(80, 700))
+    check_late(ctx, res, ctx.n(80, 700))
     ctx.batch.flush()
     flush_leanrun(res)
     return res
@@ -2638,6 +2917,15 @@ def search(ctx, res, broken):
     r2 = Result()
     for _ in range(300):
         oracle_construct(r2, gen_build_case(rng))
+        if r2.violations:
+            res.violations.extend(r2.violations[:1])
+            return
+    for _ in range(300):
+        c = gen_late_case(rng)
+        try:
+            run_late(r2, c)
+        except Exception as e:  # noqa: BLE001
+            r2.violate(f'the real code raises {type(e).__name__}: {e} while catalogs are created between selections', c, str(e), 'no error', where=W_LATE)
         if r2.violations:
             res.violations.extend(r2.violations[:1])
             return
@@ -2685,6 +2973,8 @@ def replay(ctx, obj):
             oracle_construct(r, case)
         elif case.get('shape') == 'shared':
             run_shared(r, case)
+        elif case.get('shape') == 'late':
+            run_late(r, case)
         elif case.get('shape') == 'embedded':
             run_embedding(r, {k: v for k, v in case.items() if k not in ('step', 'formula')})
         elif case.get('shape') == 'estimate':
